@@ -753,9 +753,11 @@ def pncbo(op, ifile1, ifile2, coordkeys=None, verbose=0):
             unit1 = getattr(in1var, 'units', 'unknown')
             unit2 = getattr(in2var, 'units', 'unknown')
             propd['units'] = '(%s) %s (%s)' % (unit1, op, unit2)
-            outval = np.ma.masked_invalid(
-                eval('in1var[...] %s in2var[...]' % op).view(
-                    np.ma.MaskedArray))
+            outval = eval('in1var[...] %s in2var[...]' % op).view(
+                np.ma.MaskedArray)
+            # same as masked_invalid, which fails on a masked 0-d array
+            outval = np.ma.masked_where(
+                ~np.isfinite(np.ma.getdata(outval)), outval)
             if outval.shape != in1var.shape:
                 raise ValueError(
                     '%s: result shape %s differs from shape %s in ifile1'
